@@ -15,19 +15,24 @@ for f in [os.path.join(S, "_matrix_final.jsonl")] if os.path.exists(os.path.join
         if "check" in d:
             mat.setdefault(d["m"], {})[d["check"]] = d["result"]
 rows = []
-for pid in sorted(os.listdir(os.path.join(S, "_incoming"))):
-    for x in sorted(os.listdir(os.path.join(S, "_incoming", pid))):
+INC = os.path.join(S, "_incoming")          # sub-agent output as delivered; absent once finalised
+ids = sorted(os.listdir(INC)) if os.path.isdir(INC) else sorted(d for d in os.listdir(S) if re.fullmatch(r"C\d\d", d))
+for pid in ids:
+    for x in sorted(os.listdir(os.path.join(INC if os.path.isdir(INC) else S, pid))):
         m = "%s/%s" % (pid, x)
-        src = os.path.join(S, "_incoming", pid, x)
         dst = os.path.join(S, pid, x)
-        os.makedirs(dst, exist_ok=True)
-        shutil.copy(os.path.join(src, "patch.diff"), os.path.join(dst, "patch.diff"))
-        shutil.copy(os.path.join(src, "demo.rs"), os.path.join(dst, "demonstration.rs"))
+        if os.path.isdir(INC):
+            src = os.path.join(INC, pid, x)
+            os.makedirs(dst, exist_ok=True)
+            shutil.copy(os.path.join(src, "patch.diff"), os.path.join(dst, "patch.diff"))
+            shutil.copy(os.path.join(src, "demo.rs"), os.path.join(dst, "demonstration.rs"))
+            if os.path.exists(os.path.join(src, "notes.md")):
+                shutil.copy(os.path.join(src, "notes.md"), os.path.join(dst, "notes.md"))
+        src = dst
         if os.path.exists(os.path.join(src, "notes.md")):
-            shutil.copy(os.path.join(src, "notes.md"), os.path.join(dst, "notes.md"))
             title = [l.strip("# \n") for l in open(os.path.join(src, "notes.md")) if l.strip()][0]
         else:
-            title = [l.strip("/!# \n") for l in open(os.path.join(src, "demo.rs")) if l.strip()][0]
+            title = [l.strip("/!# \n") for l in open(os.path.join(src, "demonstration.rs")) if l.strip()][0]
         title = re.sub(r"^(Mutant )?C\d\d\s*/\s*(mutant )?[A-D]\s*[—:-]*\s*", "", title, flags=re.I)
         files = sorted({l[6:].strip() for l in open(os.path.join(src, "patch.diff")) if l.startswith("+++ b/")})
         c = conf.get(m, {})
